@@ -2184,6 +2184,10 @@ class KmipEngine(object):
         attribute = object_attributes.get('Cryptographic Length')
         if attribute:
             derivation_length = attribute.value
+            if derivation_length < 0:
+                raise exceptions.InvalidField(
+                    "The cryptographic length cannot be negative."
+                )
             if (derivation_length % 8) == 0:
                 derivation_length //= 8
             else:
